@@ -10,6 +10,8 @@ mod sess;
 
 mod c05;
 mod c07mem;
+#[cfg(feature = "full")]
+mod c18rt;
 mod c08;
 mod c09;
 mod c10;
@@ -54,6 +56,10 @@ fn main() {
         "c05" => c05::run(&cfg, false),
         "c18" => c05::run(&cfg, true),
         "c07-mem" => c07mem::run(&cfg),
+        #[cfg(feature = "full")]
+        "c05-rt" => c18rt::run(&cfg, false),
+        #[cfg(feature = "full")]
+        "c18-rt" => c18rt::run(&cfg, true),
         "c08" => c08::run(&cfg),
         "c09" => c09::run(&cfg),
         "c10" => c10::run(&cfg),
@@ -76,6 +82,7 @@ fn main() {
         "c20-agent" => e2e2::run_c20_agent(&cfg),
         #[cfg(feature = "full")]
         "c01-l2" => e2e2::run_l2(&cfg, e2e2::L2::C01),
+        "c01-daemon" => e2e2::run_c01_daemon(&cfg),
         #[cfg(feature = "full")]
         "c02-l2" => e2e2::run_l2(&cfg, e2e2::L2::C02),
         #[cfg(feature = "full")]
@@ -88,6 +95,7 @@ fn main() {
         "c17" => c11::run_c17(&cfg),
         #[cfg(feature = "full")]
         "c16" => agentl1::run_c16(&cfg),
+        "c16-agent" => agentl1::run_c16_agent(&cfg),
         #[cfg(feature = "full")]
         "worker" => realwire::worker_main(&args[2..]),
         #[cfg(feature = "full")]
